@@ -364,15 +364,15 @@ func (x *Exec) fieldRead(st *State, owner types.Type, f *types.Var, ref Term) Te
 	arr := x.heapGet(st, key, arraySort(SInt, fs))
 	if strings.HasPrefix(arr.S, "(store ") && !strings.Contains(arr.S, "\"") {
 		if fs == SInt && isRefType(f.Type()) && !x.underBinder(ref.S) {
-			x.declare("(assert (>= (select "+key+"_0 "+ref.S+") 0))", "ax_ref_"+key+":"+ref.S)
 			x.heapGet(newState(), key, arraySort(SInt, fs))
+			x.declare("(assert (>= (select "+key+"_0 "+ref.S+") 0))", "ax_ref_"+key+":"+ref.S)
 		}
 		return Term{selectSimp(arr.S, ref.S), fs}
 	}
 	if fs == SInt && isRefType(f.Type()) && !x.underBinder(ref.S) {
 		// references stored in the pre-state heap are pre-state references (>= 0)
-		x.declare("(assert (>= (select "+key+"_0 "+ref.S+") 0))", "ax_ref_"+key+":"+ref.S)
 		x.heapGet(newState(), key, arraySort(SInt, fs))
+		x.declare("(assert (>= (select "+key+"_0 "+ref.S+") 0))", "ax_ref_"+key+":"+ref.S)
 	}
 	return Term{"(select " + arr.S + " " + ref.S + ")", fs}
 }
